@@ -34,3 +34,17 @@ Definition classified_ranges : list (string * range_class) :=
 Definition ref_normalize_options : list string := ["NewJsonLdOptions("""")"; "Flatten(json, context, options)"].
 Definition ref_sk_yaml_get : string := "if y.data != nil && y.data.Kind == yaml.MappingNode { for { if k.Kind == yaml.ScalarNode && k.Value == key { return } } }; return".
 Definition ref_sk_iri_expander_from : string := "call make; call MergeObjectMap; range profile.Prefixes {  }; return".
+
+(* the order in which the profile parser looks keys up (string literals passed to Yaml.Get, in source order):
+   ProfileParser.expr_body / parse_pc / pc_qualified / parse_profile are written in this order *)
+Definition ref_parser_expression_key_order : list string :=
+  ["propertyConstraints"; "rego"; "regoModule"; "and"; "or"; "not"; "if"; "then"; "else"]%string.
+Definition ref_parser_validation_key_order : list string := ["targetClass"; "message"]%string.
+Definition ref_parser_constraint_key_order : list string :=
+  ["minCount"; "maxCount"; "exactCount"; "minLength"; "maxLength"; "exactLength"; "pattern"; "in"; "uniqueValues"; "containsAll";
+   "containsSome"; "lessThanProperty"; "lessThanOrEqualsToProperty"; "equalsToProperty"; "disjointWithProperty"; "moreThanProperty";
+   "moreThanOrEqualsToProperty"; "atLeast"; "atMost"; "exactly"; "minInclusive"; "minExclusive"; "maxInclusive"; "maxExclusive";
+   "datatype"; "nested"; "rego"; "regoModule"]%string.
+Definition ref_parser_qualified_key_order : list string := ["count"; "validation"]%string.
+Definition ref_parser_profile_key_order : list string := ["profile"; "description"; "rego_extensions"; "prefixes"; "validations"]%string.
+Definition ref_parser_level_order : list string := ["violation"; "warning"; "info"]%string.
